@@ -27,6 +27,8 @@ type Scenario struct {
 	// Aftermath: what the server, which considers the key established, sends after a key exchange the client aborted at
 	// its last step: "new-session", "bad-salt", "update" ("" = nothing)
 	Aftermath string `json:"aftermath,omitempty"`
+	// Baseline: documentation of what is special about the otherwise conformant exchange ("zero-server_nonce", "zero-nonce")
+	Baseline string `json:"baseline,omitempty"`
 	// ServerClockOffset: every reference server of the scenario stamps its msg_ids with a clock that many seconds ahead
 	// (beyond 2038-01-19 the id, read as a signed 64-bit number, is negative)
 	ServerClockOffset int64 `json:"server_clock_offset,omitempty"`
